@@ -2,11 +2,6 @@
 
 package local
 
-import (
-	vnd "github.com/buildbarn/bb-storage/internal/verifnd"
-	"github.com/buildbarn/bb-storage/pkg/blobstore/buffer"
-)
-
 // C01, clause "an upload that fails never becomes visible; reads return exactly
 // the uploaded bytes": the access layers publish an index entry only for a
 // finalizer that succeeded, under the object's own key, with the finalizer's
